@@ -6,6 +6,7 @@ from c07 import order_rule
 
 
 def run(ctx, rep):
+    rep.exhaustive = True  # all propagation and return-type cells: the finite space the property quantifies over is enumerated completely
     facts = ctx.mir
     rep.rule("T1", "A3 tabulation of validation::set_up_oneway_interface (through its iterator chain) over interface.oneway x element variant x method.oneway: "
                    "not oneway -> no effect; Const -> nothing; oneway method -> one Warning on method.oneway_range and no assignment; otherwise the single effect method.oneway = true")
